@@ -428,6 +428,15 @@ def tryFromLeBytes (T : Ty) (bytes : List Nat) : Except OverflowErr Buf :=
     | .error e => .error e
     | .ok buf => if buf.len != len then .error (.sizeMismatch buf.len len) else .ok (Buf.ofBytes bytes)
 
+/-- the outcome of `try_from_le_bytes` as a function of the slice's length alone (`tryFromLeBytes` looks at nothing else
+    before it copies the bytes) -/
+def tryFromLeLen (T : Ty) (len : Nat) : Except OverflowErr Unit :=
+  if len = 0 || len % 4 != 0 then .error (.sizeMismatch len (len + 4 - len % 4))
+  else
+    match T.withAtLeastBytes len with
+    | .error e => .error e
+    | .ok buf => if buf.len != len then .error (.sizeMismatch buf.len len) else .ok ()
+
 /-! ## `encode_max` / `encode_min` (`binary.rs`) -/
 
 def encodeMax (len : Nat) (neg : Bool) : Buf :=
